@@ -22,6 +22,10 @@ structure Group where
   parent : Bytes
   height : Nat
   create : Nat
+  /-- `Header.DismissHeight` (block height at which the group stops working) -/
+  dismiss : Nat := 0
+  /-- `Members` (miner ids) -/
+  members : List Bytes := []
   deriving DecidableEq, Repr, Inhabited
 
 /-- A stored value: the JSON of a group, a group id (under `gcurrent` / a height
@@ -423,5 +427,52 @@ def rmLoopS (h : Nat) (f : SqlFault) : Nat → Chain → Chain × Bool
     else (c, false)
 
 def rmToS (c : Chain) (h : Nat) (f : SqlFault) : Chain × Bool := rmLoopS h f (topHeight c) c
+
+/-! ### The header rewrite of `AddGroup`, group availability, and the fork switch -/
+
+/-- What `AddGroup` does to the header of an accepted group before `save`:
+    `DismissHeight = CreateHeight + GetGroupWorkDuration()` (uint64). `dur` is that duration
+    (a configuration value the harness reads from the node and passes in). The dismiss height
+    a sender put into the group is overwritten; it does not even travel (`GroupToPbHeader`). -/
+def prepare (dur : Nat) (g : Group) : Group := { g with dismiss := (g.create + dur) % u64 }
+
+def addGroupD (dur : Nat) (c : Chain) (g : Group) : AddRes × Chain := addGroup c (prepare dur g)
+
+/-- `availableGroupsAt(h)`: walk the iterator from `last`; a group whose `DismissHeight > h` is
+    taken; at the FIRST group that is not, `GetGroupByHeight(0)` (the genesis group, possibly nil)
+    is appended instead and the walk stops — older groups are not looked at. -/
+def availWalk (d : Store) (h : Nat) : Nat → Group → List (Option Group)
+  | 0, _ => []
+  | fuel + 1, g =>
+    if g.dismiss > h then
+      some g :: (match getGroupById d g.pre with
+                 | none => []
+                 | some p => availWalk d h fuel p)
+    else [getGroupByHeight d 0]
+
+def availableAt (c : Chain) (h : Nat) : List (Option Group) :=
+  availWalk c.disk h (c.disk.length + 1) c.last
+
+/-- `GetAvailableGroupsByMinerId(h, m)`: the available groups that list `m` as a member
+    (`none` = the real code dereferences a nil genesis group and panics). -/
+def availableByMiner (c : Chain) (h : Nat) (m : Bytes) : Option (List Group) :=
+  (availableAt c h).foldr (fun og acc =>
+    match og, acc with
+    | some g, some l => some (if m ∈ g.members then g :: l else l)
+    | _, _ => none) (some [])
+
+/-- `AddGroup` of each group in turn, stopping at the first one that is not accepted
+    (the loop of `groupChainFork.triggerOnChain`). -/
+def addAll (dur : Nat) : List Group → Chain → Chain × Bool
+  | [], c => (c, true)
+  | g :: t, c =>
+    match addGroupD dur c g with
+    | (.ok, c') => addAll dur t c'
+    | (_, c') => (c', false)
+
+/-- `groupChainFork.triggerOnChain` on a fresh fork: `removeFromCommonAncestor(ancestor)` with
+    `ancestor.GroupHeight = h`, then `AddGroup` of the fork's groups in height order. -/
+def forkSwitch (dur : Nat) (c : Chain) (h : Nat) (gs : List Group) : Chain × Bool :=
+  addAll dur gs (rmTo c h)
 
 end Rangers.Model.GroupChain
